@@ -698,8 +698,23 @@ func runC12Entry(c *Ctx, docsPerEP int) {
 					lvl := c12Levels[r.Intn(4)]
 					data, pres, intact = deflateBytes(d, lvl), fmt.Sprintf("deflate%d", lvl), true
 				}
+				// history: the application's usual first step, the unverified pre-decode of the very same payload (package-level
+				// functions, default limit), right before the SP validates it under ITS limit
+				history := ""
+				if ep.usesP && r.Intn(2) == 0 {
+					func() {
+						defer func() { recover() }()
+						if ep.doc == "LogoutResponse" {
+							saml2.DecodeUnverifiedLogoutResponse(b64(data))
+						} else {
+							saml2.DecodeUnverifiedBaseResponse(b64(data))
+						}
+					}()
+					history = "the same payload was first handed to the unverified pre-decoder"
+					c.Count("entry:history=unverified-decode-first")
+				}
 				obs, err, panicked := c12RunEP(ep, gd.sp, data)
-				replay := map[string]interface{}{"op": ep.name, "encoded": b64(data), "maximum_decompressed_body_size": max, "document": string(d),
+				replay := map[string]interface{}{"op": ep.name, "encoded": b64(data), "maximum_decompressed_body_size": max, "document": string(d), "history": history,
 					"presentation": pres, "skip_signature_validation": gd.sp.SkipSignatureValidation, "clock": gd.sp.Clock.Now().Format(time.RFC3339Nano)}
 				c.Count("entry:" + ep.name)
 				c.Count("entry:presentation=" + pres)
